@@ -155,8 +155,17 @@ class Lin(object):
 
 
 def fmt_sym(k):
+    try:
+        return _fmt_sym(k)
+    except Exception:
+        return repr(k.t if isinstance(k, S) else k)
+
+
+def _fmt_sym(k):
     if isinstance(k, S):
         k = k.t
+    if isinstance(k, tuple) and not k:
+        return "()"
     if isinstance(k, tuple):
         if k and k[0] == "len":
             return "len(%s)" % fmt_sym(k[1])
